@@ -132,7 +132,7 @@ def parallel(jobs, fn, workers=None):
 def compile_many(units, workers=None):
     """units: list of (cmd, label).  Returns list of (label, rc, stderr) for failures."""
     def one(u):
-        rc, out, err = run(u[0], timeout=1800)
+        rc, out, err = run(u[0], timeout=5400)
         return (u[1], rc, err)
     bad = [r for r in parallel(units, one, workers) if r[1] != 0]
     return bad
